@@ -282,8 +282,25 @@ struct DirectCase {
     before: Vec<String>,
     replies: Vec<String>,
     as_program: bool,
+    /// Ctrl-C after k instructions of the direct list (resident-program variant only)
+    intr: Option<u64>,
     sched_variant: usize,
     entropy: u64,
+}
+
+/// The texts of the break reports among the events.
+fn break_reports(evs: &[Ev]) -> Vec<String> {
+    let mut out = vec![];
+    for e in evs {
+        if let Ev::Errors(es) = e {
+            for x in es.iter() {
+                if x.text.starts_with("?BREAK") {
+                    out.push(x.text.clone());
+                }
+            }
+        }
+    }
+    out
 }
 
 impl Case for DirectCase {
@@ -293,13 +310,18 @@ impl Case for DirectCase {
         // reference: fresh runtime, empty store, the list typed in direct mode
         let mut w0 = World::booted(sched(self.sched_variant), self.entropy, false);
         basic::verif::set_entropy(self.entropy ^ 5);
-        let io = LineIo {
+        let mut io = LineIo {
             replies: self.replies.clone(),
             max_instr: 20_000,
             ..Default::default()
         };
+        if let (Some(k), false) = (self.intr, self.as_program) {
+            io.intrs.push(When::Instr(k));
+        }
         let o0 = w0.line(&text, &io);
         let t0 = tokens(&w0.events[o0.ev_start..o0.ev_end]);
+        let b0 = break_reports(&w0.events[o0.ev_start..o0.ev_end]);
+        let mut b1 = b0.clone();
         // variant
         let mut w1 = World::booted(sched(self.sched_variant + 1), self.entropy, false);
         let t1 = if self.as_program {
@@ -328,6 +350,10 @@ impl Case for DirectCase {
             if !self.before.is_empty() {
                 v.stats.bump("c20.direct_after_other_direct_lines");
             }
+            b1 = break_reports(&w1.events[o1.ev_start..o1.ev_end]);
+            if !b0.is_empty() {
+                v.stats.bump("c20.direct_list_interrupted");
+            }
             tokens(&w1.events[o1.ev_start..o1.ev_end])
         };
         v.stats.merge(&w0.stats);
@@ -340,6 +366,14 @@ impl Case for DirectCase {
             v.violation = Some(fatal_violation("C20", f));
         } else if o0.budget_hit {
             v.discarded = Some("direct list exceeded the budget".into());
+        } else if b0 != b1 {
+            v.violation = Some(Violation {
+                key: "C20:direct-vs-resident:break-report".to_string(),
+                detail: format!(
+                    "{:?} interrupted after {:?} instructions: with an empty store the report is {:?}, with the resident program {:?}",
+                    text, self.intr, b0, b1
+                ),
+            });
         } else if t0 != t1 {
             v.violation = Some(Violation {
                 key: if self.as_program {
@@ -401,6 +435,7 @@ impl Case for DirectCase {
             .set("resident_program", program_json(&self.resident))
             .set("direct_lines_before", self.before.clone())
             .set("replies", self.replies.clone())
+            .set("interrupt_after_instructions", match self.intr { Some(k) => k.to_string(), None => "none".to_string() })
             .build()
     }
 }
@@ -636,6 +671,7 @@ impl Property for C20 {
                 as_program,
                 sched_variant: rng.usize(3),
                 entropy: rng.next_u64(),
+                intr: if !as_program && rng.pct(30) { Some(if rng.pct(25) { 0 } else { rng.below(40) }) } else { None },
             })
         }
     }
